@@ -42,11 +42,12 @@ def _run_chunk(arg):
                 except Exception as e:  # noqa
                     out["error"] = f"case {c!r}: " + traceback.format_exc()
                     break
-                out["n"] += 1
+                wt = chk.weight(c)
+                out["n"] += wt
                 k = chk.kind(c)
-                out["kinds"][k] = out["kinds"].get(k, 0) + 1
+                out["kinds"][k] = out["kinds"].get(k, 0) + wt
                 if chk.nontrivial(c):
-                    out["nontrivial"] += 1
+                    out["nontrivial"] += wt
                 if i == lo and len(out["samples"]) < 1:
                     out["samples"].append(chk.show(c))
                 for v in r or []:
@@ -73,8 +74,9 @@ def enum_check(prop, tier, names, rule, assumptions, chunk=None):
     sizes = {}
     for name in names:
         chk = _REG[name](tier)
-        n = len(chk.cases())
-        sizes[name] = n
+        cs = chk.cases()
+        n = len(cs)
+        sizes[name] = sum(chk.weight(c) for c in cs)
         c = chunk or max(1, min(2000, (n + NCPU * 4 - 1) // (NCPU * 4)))
         for lo in range(0, n, c):
             args.append((name, lo, lo + c, tier))
@@ -139,6 +141,9 @@ class EnumCheck:
 
     def kind(self, case):
         return "case"
+
+    def weight(self, case):
+        return 1
 
     def nontrivial(self, case):
         return True
